@@ -469,7 +469,8 @@ pub fn run(tier: Tier) -> i32 {
     // fail-over between two different servers
     {
         let cases = failover_cases();
-        let res = crate::explore::par_cases(cases.len(), |i| failover_case(cases[i].0, cases[i].1, cases[i].2));
+        let res = crate::explore::par_cases(cases.len() * 2, |i| failover_case_exp(cases[i / 2].0, cases[i / 2].1, cases[i / 2].2, if i % 2 == 0 { 600 } else { u64::MAX }));
+        let res: Vec<_> = res.chunks(2).map(|c| match (&c[0], &c[1]) { (Err(v), _) | (_, Err(v)) => Err(v.clone()), (Ok(a), Ok(b)) => Ok(a + b) }).collect();
         let mut steps = 0u64;
         for (i, r) in res.into_iter().enumerate() {
             match r {
@@ -613,6 +614,11 @@ pub fn pending_scale_case(n: usize) -> Result<u64, Violation> {
 /// (0 = never answers, 1 = after its challenge, 2 = after its challenge and one lost response); the client must move
 /// to server B after the token time-out and complete a full handshake there.
 pub fn failover_case(stage: usize, timeout_s: i32, dt_ms: u64) -> Result<u64, Violation> {
+    failover_case_exp(stage, timeout_s, dt_ms, 600)
+}
+
+/// `expire`: the token's lifetime in seconds (u64::MAX - create = a token that never expires)
+pub fn failover_case_exp(stage: usize, timeout_s: i32, dt_ms: u64, expire: u64) -> Result<u64, Violation> {
     use crate::nc::{self, client_addr, make_token, new_client, new_server, server_addr, TokenSpec};
     use std::time::Duration;
     let (a_addr, b_addr) = (server_addr(0), server_addr(1));
@@ -620,7 +626,7 @@ pub fn failover_case(stage: usize, timeout_s: i32, dt_ms: u64) -> Result<u64, Vi
     let mut b = new_server(4, vec![b_addr], Duration::ZERO);
     let mut sp = TokenSpec::new(9, 9, vec![a_addr, b_addr]);
     sp.timeout = timeout_s;
-    sp.expire = 600;
+    sp.expire = expire;
     let tok = make_token(&sp);
     let mut c = new_client(Duration::ZERO, &tok);
     let bad = |sig: &str, msg: String| Violation::new(format!("C18/fail-over-between-servers/{}", sig), format!("first server silent {}, time-out {} s, ticks of {} ms: {}", ["from the start", "after its challenge", "after its challenge and a lost response"][stage], timeout_s, dt_ms, msg));
